@@ -29,6 +29,12 @@
        already has a VerifyPeerCertificate that accepts everything.  The model and
        the monitor ignore cfg: the property does not depend on it.
 
+   kind 7 : as kind 6 (7 cfg n CERT^n ...), with the harness's guarantee that the
+       server is an untampered listener that has been up across >= 1 rollover and
+       that the dialed certhashes are exactly those listener.Multiaddr() carried
+       at an instant of the current or the previous certificate period: such a
+       dial must complete (clause 17).
+
    kind 5 : as kind 1, but of a real LISTENER that stays open: "newCertManager" is
        transport.Listen, vs ve vh is the leaf certificate presented in a real
        QUIC/TLS handshake against the listener at that instant, j.. are the
@@ -250,6 +256,18 @@ Definition monitor_dial (chain : list xcert) (addr : list (Z * Z)) (dec : bool)
     end
   else [].
 
+(* clause 17 ("an address learned at any time keeps verifying through the current
+   and the following certificate period", end to end): a dial against an
+   UNTAMPERED listener that stayed up, with exactly the certhashes its multiaddr
+   carried at some instant of the current or the previous certificate period,
+   completes (and, as for every dial, only under the conditions above) *)
+Definition monitor_genuine_dial (chain : list xcert) (addr : list (Z * Z)) (dec : bool)
+           (srv : list (Z * Z)) (outcome : Z) : list Z :=
+  match monitor_dial chain addr dec srv outcome with
+  | [] => if outcome =? 0 then [] else [ERR_PROPERTY; 17; outcome]
+  | d => d
+  end.
+
 (* ---- the model's own trace (what the theorems are about) ------------------- *)
 Section Trace.
   Variable H : Z -> Z -> Z.       (* hash id of generateCert(key, s, e) *)
@@ -446,7 +464,20 @@ Definition take_chain (l : list Z) : option (list xcert * list Z) :=
 Inductive dcase :=
 | DMgr (indomain : bool) (b0 b1 t0 : Z) (l : list ev)
 | DVerify (chain : list xcert) (hashes : list (Z * Z)) (res : Z)
-| DDial (chain : list xcert) (addr : list (Z * Z)) (dec : bool) (srv : list (Z * Z)) (outcome : Z).
+| DDial (genuine : bool) (chain : list xcert) (addr : list (Z * Z)) (dec : bool) (srv : list (Z * Z)) (outcome : Z).
+
+Definition decode_dial (genuine : bool) (r : list Z) : option dcase :=
+  match take_chain r with
+  | Some (ch, r1) =>
+      match take_plist r1 with
+      | Some (ad, dec :: r2) =>
+          match take_plist r2 with
+          | Some (sv, [outcome]) => Some (DDial genuine ch ad (zbool dec) sv outcome)
+          | _ => None end
+      | _ => None
+      end
+  | None => None
+  end.
 
 Definition decode_case (l : list Z) : option dcase :=
   match l with
@@ -464,18 +495,8 @@ Definition decode_case (l : list Z) : option dcase :=
       | None => None
       end
   | 6 :: _ :: r     (* as kind 3, preceded by the dialer's configuration class *)
-  | 3 :: r =>
-      match take_chain r with
-      | Some (ch, r1) =>
-          match take_plist r1 with
-          | Some (ad, dec :: r2) =>
-              match take_plist r2 with
-              | Some (sv, [outcome]) => Some (DDial ch ad (zbool dec) sv outcome)
-              | _ => None end
-          | _ => None
-          end
-      | None => None
-      end
+  | 3 :: r => decode_dial false r
+  | 7 :: _ :: r => decode_dial true r
   | _ => None
   end.
 
@@ -491,7 +512,7 @@ Definition conform_case (l : list Z) : list Z :=
   | Some (DVerify ch hs res) =>
       let r := z_of_vres (verify_raw_certs cparams ch hs) in
       if r =? res then [] else [ERR_MISMATCH; 0; r; res]
-  | Some (DDial ch ad dec sv outcome) =>
+  | Some (DDial _ ch ad dec sv outcome) =>
       let r := dial cparams ch ad dec sv in
       if r =? outcome then [] else [ERR_MISMATCH; 0; r; outcome]
   | None => [ERR_MALFORMED; 0]
@@ -506,6 +527,7 @@ Definition monitor_case (l : list Z) : list Z :=
   | Some (DMgr false b0 b1 t0 evs) =>
       if in_domain cparams b0 b1 t0 then [ERR_MALFORMED; 2] else []
   | Some (DVerify ch hs res) => monitor_verify ch hs res
-  | Some (DDial ch ad dec sv outcome) => monitor_dial ch ad dec sv outcome
+  | Some (DDial g ch ad dec sv outcome) =>
+      if g then monitor_genuine_dial ch ad dec sv outcome else monitor_dial ch ad dec sv outcome
   | None => [ERR_MALFORMED; 0]
   end.
